@@ -23,6 +23,7 @@ from lv.gen.printer import to_source
 from lv.harness.envs import make_env
 from lv.model import interp
 from lv.model.c01_calibration import TABLE
+from lv.model.c01_focus import focus_program
 
 from liquid2.exceptions import LiquidError
 
@@ -31,7 +32,7 @@ CFG_MAIN = Cfg(filter_names=FILTERS, tablerow=False, shopify=False, wc_rate=0.0,
 CFG_WC = Cfg(filter_names=FILTERS, tablerow=False, shopify=False, wc_rate=0.15, confusion=0.02, budget=12)
 CFG_FLAT = Cfg(filter_names=FILTERS, tablerow=False, shopify=False, wc_rate=0.0, confusion=0.02, partials=False,
                macros=False, budget=10, max_depth=2)
-CFG_WC_FLAT = Cfg(filter_names=FILTERS, tablerow=False, shopify=False, wc_rate=0.25, confusion=0.0, partials=False,
+CFG_WC_FLAT = Cfg(filter_names=FILTERS, tablerow=False, shopify=False, wc_rate=0.5, confusion=0.0, partials=False,
                   macros=False, budget=8, max_depth=2, filters=False, ws_text=True)
 
 CONTROL = ("if", "unless", "case", "for")
@@ -138,13 +139,17 @@ def use_shorthand(prog: dict[str, Any], seed: int) -> dict[str, Any]:
 
 @st.composite
 def case_strategy(draw: Any) -> dict[str, Any]:
-    which = draw(st.integers(0, 9))
-    cfg = CFG_MAIN if which < 4 else CFG_FLAT if which < 7 else CFG_WC if which < 9 else CFG_WC_FLAT
-    prog = interp.normalise_program(sanitise(draw(program_strategy(cfg))))
+    which = draw(st.integers(0, 15))
+    if which >= 11:
+        prog = interp.normalise_program(draw(focus_program()))
+    else:
+        cfg = CFG_MAIN if which < 4 else CFG_FLAT if which < 7 else CFG_WC if which < 9 else CFG_WC_FLAT
+        prog = interp.normalise_program(sanitise(draw(program_strategy(cfg))))
+    prog = json.loads(json.dumps(prog))  # no shared sub-objects: text runs are identified by object identity
     c = draw(st.integers(0, 11))
     if c >= 6:
         prog = use_shorthand(prog, draw(st.integers(0, 2**20)))
-    return {"kind": "prog", "prog": prog, "data": draw(data_strategy()), "cfg": c,
+    return {"kind": "focus" if which >= 11 else "prog", "prog": prog, "data": draw(data_strategy()), "cfg": c,
             "layout": draw(st.integers(1, 10**6))}
 
 
@@ -233,10 +238,30 @@ def neg_lead(prog: dict[str, Any]) -> bool:
     return hit[0]
 
 
+def shape_final_newline_after_trim(prog: dict[str, Any], default_trim: str) -> bool:
+    """A template whose last statement is a whitespace-only text run of >= 2 characters ending in a
+    newline, preceded by markup whose effective right marker is '-' or '~'."""
+    for stmts in [prog["main"], *prog["templates"].values()]:
+        if len(stmts) < 2 or stmts[-1]["t"] != "text":
+            continue
+        txt = stmts[-1]["s"]
+        if len(txt) < 2 or not txt.endswith("\n") or txt.strip():
+            continue
+        items: list[Any] = []
+        try:
+            interp.linearise(stmts, items)
+        except Exception:  # noqa: BLE001
+            continue
+        if len(items) >= 2 and items[-1][0] == "text" and items[-2][0] == "mark" and (items[-2][2] or default_trim) != "+":
+            return True
+    return False
+
+
 DYNAMIC_FLAGS = ("map_missing_property",)
 
 DEFECT_SHAPES = {
     "not_in_logical_chain": shape_not_in_logical_chain,
+    "final_newline_after_trim": shape_final_newline_after_trim,
     "case_first_when_trim": shape_case_first_when_trim,
 }
 
@@ -437,7 +462,7 @@ class C01(Prop):
 
     def check(self, case: Any, disabled: frozenset[str] = frozenset()) -> Result:  # noqa: PLR0912, PLR0915
         res = Result()
-        prog, data = case["prog"], case["data"]
+        prog, data = json.loads(json.dumps(case["prog"])), case["data"]
         opts = config(case["cfg"])
         res.labels.append(f"cfg:{opts['default_trim']}{'S' if opts['suppress'] else 's'}{'H' if opts['shorthand'] else 'h'}")
         res.evaluations = 0
@@ -488,9 +513,11 @@ class C01(Prop):
             if not agree(model, got):
                 kind, detail, stmt = localise(prog, data, opts)
                 sub = {"main": [x for x in prog["main"] if x["t"] == "macro"] + [stmt], "templates": prog["templates"]} if stmt is not None else prog
-                for flag, shape in DEFECT_SHAPES.items():
-                    if shape(sub, opts["default_trim"]):
-                        detail = flag
+                hits = [flag for flag, shape in DEFECT_SHAPES.items() if shape(sub, opts["default_trim"])]
+                if not hits and kind in ("interaction", "text"):
+                    hits = [flag for flag, shape in DEFECT_SHAPES.items() if shape(prog, opts["default_trim"])]
+                if hits:
+                    detail = hits[0]
                 for flag in DYNAMIC_FLAGS:
                     if interp.render(sub, data, known=frozenset([flag]), **opts) == ("unsup", "known:" + flag):
                         detail = flag
